@@ -137,9 +137,7 @@ impl NormalizedTimeDuration {
                 // a. Let fractionalDays be days + DivideNormalizedTimeDuration(norm, nsPerDay).
                 // NOTE: fractionalDays is kept exact as a number of nanoseconds; a `f64` cannot
                 // hold the days and the fraction of a day at the same time.
-                let total_nanoseconds = self
-                    .add_days(days.as_integer_if_integral()?)?
-                    .0;
+                let total_nanoseconds = self.add_days(days.as_integer_if_integral()?)?.0;
                 // b. Set days to RoundNumberToIncrement(fractionalDays, increment, roundingMode).
                 let increment = options
                     .increment
@@ -421,22 +419,24 @@ impl NormalizedDurationRecord {
                 // TODO: Reconcile potential overflow on years as i32. `ValidateDuration` requires years, months, weeks to be abs(x) <= 2^32
                 // a. Let isoResult1 be BalanceISODate(dateTime.[[Year]] + duration.[[Years]],
                 // dateTime.[[Month]] + duration.[[Months]], dateTime.[[Day]]).
-                let iso_one = IsoDate::balance(
-                    dt.iso_year() + self.date().years.as_date_value()?,
-                    i32::from(dt.iso_month()) + self.date().months.as_date_value()?,
-                    i32::from(dt.iso_day()),
-                );
+                // a. Let yearsMonths be ! AdjustDateDurationRecord(duration.[[Date]], 0, 0).
+                // b. Let weeksStart be ? CalendarDateAdd(calendar, isoDateTime.[[ISODate]], yearsMonths, constrain).
+                let years_months =
+                    self.date()
+                        .adjust(FiniteF64::default(), Some(FiniteF64::default()), None)?;
+                let iso_one = dt
+                    .iso
+                    .date
+                    .add_date_duration(&years_months, ArithmeticOverflow::Constrain)?;
 
-                // b. Let isoResult2 be BalanceISODate(dateTime.[[Year]] + duration.[[Years]], dateTime.[[Month]] +
-                // duration.[[Months]], dateTime.[[Day]] + duration.[[Days]]).
+                // c. Let weeksEnd be BalanceISODate(weeksStart.[[Year]], weeksStart.[[Month]],
+                // weeksStart.[[Day]] + duration.[[Date]].[[Days]]).
                 let iso_two = IsoDate::balance(
-                    dt.iso_year() + self.date().years.as_date_value()?,
-                    i32::from(dt.iso_month()) + self.date().months.as_date_value()?,
-                    i32::from(dt.iso_day()) + self.date().days.as_date_value()?,
+                    iso_one.year,
+                    i32::from(iso_one.month),
+                    i32::from(iso_one.day) + self.date().days.as_date_value()?,
                 );
 
-                // c. Let weeksStart be ! CreateTemporalDate(isoResult1.[[Year]], isoResult1.[[Month]], isoResult1.[[Day]],
-                // calendarRec.[[Receiver]]).
                 let weeks_start = PlainDate::try_new(
                     iso_one.year,
                     iso_one.month,
